@@ -390,3 +390,48 @@ fn c11_token_views() {
     assert!(shim::no_effects() && shim::n_auth() == 0, "OBL C11.views_pure");
     kani::cover!(im, "COVER token views minter");
 }
+
+// ------------------------------------------------------------------------------------------------ more positive halves (no-trap mode)
+#[kani::proof]
+fn c12_burn_notrap() {
+    let env = Env::default();
+    let _h = shim::fresh_host();
+    let from = addr();
+    let amount: i128 = kani::any();
+    let bf0 = bal_pre(&from);
+    kani::assume(shim::auth_granted(from.0) && amount >= 0 && bf0 >= amount);
+    shim::set_no_trap_mode();
+    <T as token::Interface>::burn(env.clone(), from.clone(), amount);
+    assert!(true, "OBL C12.burn_accepts_honest_call: an authorised burn covered by the balance is accepted");
+    kani::cover!(amount > 0, "COVER c12_burn_notrap returned");
+}
+
+#[kani::proof]
+fn c12_mint_from_notrap() {
+    let env = Env::default();
+    let _h = shim::fresh_host();
+    let (minter, to) = (addr(), addr());
+    let amount: i128 = kani::any();
+    let bt0 = bal_pre(&to);
+    kani::assume(shim::auth_granted(minter.0) && amount >= 0 && bt0.checked_add(amount).is_some());
+    kani::assume(inst().pre_has(&DataKey::Minter(minter.clone())));
+    shim::set_no_trap_mode();
+    let r = <T as InterchainTokenInterface>::mint_from(&env, minter.clone(), to.clone(), amount);
+    assert!(r.is_ok(), "OBL C12.current_minter_can_mint: a current minter's authorised mint of a non-negative amount is accepted");
+    kani::cover!(amount > 0, "COVER c12_mint_from_notrap returned");
+}
+
+#[kani::proof]
+fn c12_approve_notrap() {
+    let env = Env::default();
+    let h = shim::fresh_host();
+    let seq = h.sequence;
+    let (from, spender) = (addr(), addr());
+    let amount: i128 = kani::any();
+    let exp: u32 = kani::any();
+    kani::assume(shim::auth_granted(from.0) && amount >= 0 && (amount == 0 || exp >= seq));
+    shim::set_no_trap_mode();
+    <T as token::Interface>::approve(env.clone(), from.clone(), spender.clone(), amount, exp);
+    assert!(true, "OBL C12.approve_accepts_live_expiration: an authorised approval expiring on or after the current ledger is accepted");
+    kani::cover!(amount > 0 && exp == seq, "COVER c12_approve_notrap expiring this ledger");
+}
